@@ -196,7 +196,12 @@ async def run_pump(loop: S.VLoop, c, mw_factory=None):
 
     server = TLSServerProtocol(lambda: GeminiServerProtocol(h, RealMW() if mw_factory else MW() if c.get("mw") else None, Up() if c["up"] else None), ctx)
     tcp = TCP()
+    from nauyaca.server import tls_protocol as _tp
+
+    wall, restore_wall = S.install_wall(sp, _tp)
     server.connection_made(tcp)
+    # the wall clock may be stepped (NTP sync, `date -s`) between the TCP connect and the end of the handshake
+    wall.offset += c.get("wallstep", 0)
     cctx = ssl.SSLContext(ssl.PROTOCOL_TLS_CLIENT)
     cctx.check_hostname = False
     cctx.verify_mode = ssl.CERT_NONE
@@ -241,6 +246,7 @@ async def run_pump(loop: S.VLoop, c, mw_factory=None):
         obs = {"plain": got.hex() or "-", "eof": eof, "tcpclosed": tcp.closed, "h": log["h"], "u": log["u"], "m": log["m"],
                "content": log["content"].hex() or "-", "mwargs": log["mwargs"], "order": log["order"], "exc": log["exc"], "pevs": pevs,
                "after_close_writes": len(tcp.after), "inner": inner is not None}
+        restore_wall()
         loop.set_exception_handler(lambda lp, cx: None)
         if inner is not None and getattr(inner, "timeout_handle", None):
             inner.timeout_handle.cancel()
